@@ -648,7 +648,10 @@ class SimulationBuilder:
         except ValueError as error:
             raise errors.SituationParsingError(path_in_json, *error.args)
 
-        array[instance_index] = value
+        try:
+            array[instance_index] = value
+        except ValueError as error:
+            raise errors.SituationParsingError(path_in_json, *error.args)
 
         self.input_buffer[variable.name][str(periods.period(period_str))] = array
 
